@@ -6,3 +6,6 @@ package state
 // VerifUpstreamDownstream lets monitors outside this package type-assert mesh-topology rows
 // (type alias only; no logic).
 type VerifUpstreamDownstream = upstreamDownstream
+
+// VerifSessionCheck lets monitors type-assert session_checks rows (alias only).
+type VerifSessionCheck = sessionCheck
